@@ -54,17 +54,22 @@ def mk_key(k):
   if isinstance(k, list): return k
   if isinstance(k, str): return [0, S(k)]
   if isinstance(k, bool): return [1, int(k), 1]
-  if isinstance(k, float): return [1, int(k), 2]
+  if isinstance(k, float):
+    if k == int(k): return [1, int(k), 2]
+    n, d = k.as_integer_ratio()            # a non-integral float is (2h+1) / 2^e for exactly one (h, e)
+    return [2, (n - 1) // 2, d.bit_length() - 1]
   return [1, k]
 def key_py(k):
   if k[0] == 0: return US(k[1])
+  if k[0] == 2: return math.ldexp(2 * k[1] + 1, -k[2])
   return k[1] if len(k) < 3 or k[2] == 0 else (bool(k[1]) if k[2] == 1 else float(k[1]))
-def kid(k): return json.dumps(k[:2])
+def kid(k): return json.dumps(k[:3] if k[0] == 2 else k[:2])
+def wire_key(k): return k[:3] if k[0] == 2 else k[:2]
 def strip(v):
   """The tree the model is given: key flavours removed."""
   if v[0] == 6: return [6, v[1], [strip(x) for x in v[2]]]
   if v[0] == 7: return [7, [strip(x) for x in v[1]]]
-  if v[0] in (8, 9): return [v[0], v[1], [[k[:2], strip(x)] for k, x in v[2]]] + v[3:]
+  if v[0] in (8, 9): return [v[0], v[1], [[wire_key(k), strip(x)] for k, x in v[2]]] + v[3:]
   return v
 
 CLASS_FIELDS = {'A': ['x', 'y'], 'A1': ['x', 'y'], 'A2': ['x', 'y', 'z'], 'Bb': ['x', 'y'], 'Zq': ['q', 'p'], 'Nc': ['p']}
@@ -125,7 +130,7 @@ def canon(v, under_sym=False):
     return [7, [canon(x, under_sym) for x in v[1]]]
   if t == 8:
     sym = 1 if (v[1] or under_sym) else 0
-    return [8, sym, [[(k[:2] if sym and len(k) > 2 and k[2] == 2 else k), canon(x, bool(sym))] for k, x in v[2]]]
+    return [8, sym, [[([1, k[1]] if sym and k[0] == 2 else k[:2] if sym and k[0] == 1 and len(k) > 2 and k[2] == 2 else k), canon(x, bool(sym))] for k, x in v[2]]]
   if t == 9:
     name = US(v[1]); got = {key_py(k): x for k, x in v[2]}
     return [9, v[1], [[mk_key(f), canon(got.get(f, MISSING), True)] for f in CLASS_FIELDS[name]], v[3]]
@@ -240,8 +245,11 @@ class Gen:
     return [self.flavour(k) for k in ks]
   def flavour(self, k):
     r = self.r
-    if isinstance(k, int) and r.random() < .2:
-      return bool(k) if k in (0, 1) and r.random() < .6 else float(k)
+    if isinstance(k, int) and not isinstance(k, bool) and r.random() < .3:
+      c = r.random()
+      if c < .35 and k in (0, 1): return bool(k)
+      if c < .7: return float(k)
+      return k + r.choice([.5, .25, -.5, .75])          # a non-integral float key (plain dicts only; canon() drops it under pg.Dict)
     return k
   def value(self, d, under_sym=False, missing_ok=True):
     r = self.r; k = r.random()
@@ -275,7 +283,7 @@ class Gen:
     if t == 7: return Tv([self.variant(x, under_sym) for x in v[1]])
     if t == 8:
       sym = under_sym or (r.random() < .5)
-      ents = [[(mk_key(self.flavour(k[1])) if k[0] == 1 and r.random() < .3 else k), self.variant(x, sym)] for k, x in v[2]]
+      ents = [[(mk_key(r.choice([k[1], float(k[1])] + ([bool(k[1])] if k[1] in (0, 1) else []))) if k[0] == 1 and r.random() < .3 else k), self.variant(x, sym)] for k, x in v[2]]
       if r.random() < .8: r.shuffle(ents)
       return [8, 1 if sym else 0, ents]
     if t == 9: return [9, v[1], [[k, self.variant(x, True)] for k, x in v[2]], v[3]]
@@ -364,6 +372,16 @@ def dict_family():
         for vb in vals:
           d = {'a': va, 'b': vb}
           out.append(Dv(sym, [(k, d[k]) for k in order]))
+  return out
+
+def float_key_family():
+  """Plain dicts over the keys {0.5, 1, 'a'} (a non-integral float, an int written as int / bool / float, a str): three
+  insertion orders x every assignment of two values."""
+  out = []
+  for order in ((0.5, 1, 'a'), ('a', True, 0.5), (1.0, 'a', 0.5)):
+    for bits in range(8):
+      vals = {0.5: Iv(1 + (bits & 1)), 1: Iv(1 + (bits >> 1 & 1)), 'a': Iv(1 + (bits >> 2 & 1))}
+      out.append(Dv(0, [(k, vals[k if isinstance(k, str) or k != 1 else 1]) for k in order]))
   return out
 
 WRAPS = [None, 'list', 'pglist', 'field', 'value', 'pgvalue', 'deep']
@@ -641,6 +659,10 @@ def make_cases(ctx):
     how = rng.choice(WRAPS)
     vals = [canon(wrap(rng.choice(DF), how)) for _ in range(3)]
     cases.append(dict(kind='triple', vals=vals, fam='num', dom=True, src='pool-dicts'))
+  FK = [canon(v) for v in float_key_family()]
+  for a in FK:
+    for b in FK:
+      cases.append(dict(kind='pair', vals=[a, b], fam='num', dom=True, src='sweep-float-keys'))
   # (A4) random families over a shared key set: pairs, triples, sorts
   for n, count in ((2, ctx.scale(500, 8000)), (3, ctx.scale(500, 8000)), (5, ctx.scale(80, 1500))):
     for _ in range(count):
@@ -852,7 +874,7 @@ def run(ctx):
       ctx.hit(sig, what, shrunk)
   ctx.extra['oracle_evaluations'] = n_or
   small = []
-  for v in pool() + [canon(v) for v in dict_family()] + [canon(wrap(v, h)) for v in dict_family()[::5] for h in ('list', 'field', 'pgvalue')]:
+  for v in pool() + [canon(v) for v in dict_family()] + [canon(v) for v in float_key_family()[::2]] + [canon(wrap(v, h)) for v in dict_family()[::5] for h in ('list', 'field', 'pgvalue')]:
     if in_domain(v, 'num') and v not in small: small.append(v)
   exhaustive_triples(ctx, small)
   # targeted search when something no longer checks and no failing input was found yet
